@@ -277,6 +277,11 @@ type replaySched struct {
 func (s *replaySched) Pick(step int, opts []string, internal []bool) int {
 	for s.pos < len(s.list) {
 		want := s.list[s.pos]
+		if want == "burst" {
+			s.pos++
+			s.ctl.Hits++
+			return -1
+		}
 		for i, o := range opts {
 			if o == want {
 				s.pos++
